@@ -12,9 +12,9 @@ LEVEL_TEXT["C10"] = "Bounded model checking of the real deterministic building b
 LEVEL_TEXT["C12"] = "Bounded model checking of the real update_signature as a one-step inductive contract: for an arbitrary decodable signature (A, e), any key, any old/new octet and each concrete (n, position) shape, the result keeps e and satisfies A'(sk+e) = A(sk+e) - H_i*old + H_i*new, and out-of-range positions (up to usize::MAX) are refused without panic. By induction this gives the statement for update histories of any length; the chain itself is not executed."
 LEVEL_TEXT["C01"] = "Bounded model checking of the real sign and verify with a PROGRAMMED random oracle (every expand_message answer is a free symbolic value): sign returns Ok with e = the oracle's answer to the e-query and A(sk+e) = P1 + Q1*domain + sum H_i*m_i, survives its 80-octet encoding, and makes exactly the queries (count, message and DST lengths) the draft prescribes; verify accepts an ARBITRARY decodable (A, e) iff A(sk+e) = B. Completeness follows by composing the two contracts; None/empty header and message list take the same path (same query lengths)."
 LEVEL_TEXT["C02"] = "Bounded model checking of the real verify: the accept <=> A(sk+e) = B(pk, header, all messages) equivalence for arbitrary (A, e), sk and oracle answers (so any edit that changes an oracle query or a message scalar changes B by a non-zero multiple of a generator), plus, for an arbitrary valid signature, every one of the 640 single-bit flips of its encoding (symbolic bit index) is refused by the decoder or by verify. The domain input is compared octet for octet with the draft's (it contains PK, L, Q1, H_i, api_id, header), so another public key, another ciphersuite or the blind interface change the domain query; that the verifier then rejects is the verify equivalence plus the random-oracle assumption (exactly one domain answer satisfies the equation), not an executed cross run."
-LEVEL_TEXT["C03"] = "Bounded model checking of the real proof_gen followed by the real proof_verify in one query, with a programmed random oracle: for an arbitrary valid signature over symbolic message scalars and domain, every disclosure subset of the stated shapes in ascending, descending and duplicated presentation, proof generation succeeds, makes the prescribed oracle queries, the proof has 272 + 32*U octets, the verifier hashes exactly the same challenge input as the prover (captured octets compared: T1, T2, domain, indexes, disclosed scalars, ph) and accepts. The encode/decode round trip of proofs is C09 (rt_proof)."
+LEVEL_TEXT["C03"] = "Bounded model checking of the real proof_gen followed by the real proof_verify in one query, with a programmed random oracle: for an arbitrary valid signature over symbolic message scalars and domain, every disclosure subset of the stated shapes in ascending, descending and duplicated presentation, proof generation succeeds, makes the prescribed oracle queries, the proof has 272 + 32*U octets, the prover's challenge input equals, octet for octet, the draft's input computed independently from the signature, the programmed scalars and the draw table (R, (i, m_i)*, Abar, Bbar, D, T1, T2, domain, ph), the verifier hashes exactly the same input and accepts. The encode/decode round trip of proofs is C09 (rt_proof)."
 LEVEL_TEXT["C04"] = "Same flow as C03 with one edit between prover and verifier (disclosed message replaced, header replaced, presentation header replaced, disclosed index moved): the verifier's challenge input provably differs from the prover's, and the verifier accepts only if an independent oracle answer coincides with the transmitted challenge (probability 1/r for a random oracle). Additional edits: a surplus never-signed disclosed message is refused; every single-bit flip of the payload octet of every segment (Abar, Bbar, D, e^, r1^, r3^, m^_j, challenge) of the canonically re-framed honest proof changes the verifier's challenge input and is accepted only if an independent answer equals the transmitted challenge. Identity-point proofs are refused by the decoder (C09 forbid_identity_proof). Forgery families without a signature, the serde path, other public key and flips of framing octets (C09) are NOT decided here."
-LEVEL_TEXT["C05"] = "Bounded model checking of the real commit -> to_bytes -> blind_sign -> verify_blind_sign chain and of blind_proof_gen -> blind_proof_verify, each in one query with a programmed random oracle and a fixed draw table: commit succeeds and draws M+2 scalars, the signer recomputes exactly the prover's commitment-challenge input (captured octets), issues (A, e) with A(sk+e) = P1 + Q1*domain + sum H_i m_i + Q2*blind + sum J_j cm_j, the holder's verification accepts; blind proofs with all messages disclosed verify and the verifier hashes the prover's challenge input (index translation j + L + 1, M = U + R - L - 1)."
+LEVEL_TEXT["C05"] = "Bounded model checking of the real commit -> to_bytes -> blind_sign -> verify_blind_sign chain and of blind_proof_gen -> blind_proof_verify, each in one query with a programmed random oracle and a fixed draw table: commit succeeds and draws M+2 scalars, its challenge input equals the draft's octets (M, Q2, J_i, C, Cbar computed from the draw table), the signer recomputes exactly the prover's commitment-challenge input (captured octets), issues (A, e) with A(sk+e) = P1 + Q1*domain + sum H_i m_i + Q2*blind + sum J_j cm_j, the holder's verification accepts; blind proofs with all messages disclosed verify and the verifier hashes the prover's challenge input (index translation j + L + 1, M = U + R - L - 1)."
 LEVEL_TEXT["C06"] = "Same chains with one edit: a flipped payload bit in any segment of the serialized commitment (C, s^, m^_i, challenge) makes blind_sign refuse unless an independent oracle answer equals the transmitted challenge (probability 1/r); verify_blind_sign rejects (exactly) an altered committed message, blinding factor, header or signer message; a blind proof with a replaced disclosed committed message is rejected likewise. Cross-suite replays, scalar-granular truncation/extension (C08/C09 cover the framing) and edits that re-assign generators (wrong L, swapped index lists) are NOT decided."
 LEVEL_TEXT["C07"] = "Bounded model checking of the real proof_gen / commit / blind_proof_gen against a rand model that hands out a fixed table of DISTINCT draws: the number of draws is exactly 5+U / M+2, and every blinding value recomputed by a witness holder (r1, r2 from Abar and D; e~, r1~, r3~, m~_j, s~, m~_i from the responses; secret_prover_blind) equals the draw the drafts assign to that role, also for a second generation on the same inputs (disjoint draws). A constant, a reused or skipped draw, or swapped roles fails. Statistical quality of thread_rng, threads, KeyPair::random and the octet-window claim are NOT decided."
 LEVEL_TEXT["C11"] = "Bounded model checking of the query-level domain separation: the four (suite, interface) api_ids are pairwise prefix-free; in the real sign, verify, proof_gen/proof_verify, commit/blind_sign/verify_blind_sign and blind proof flows every expand_message query carries a DST that starts with the api_id of the interface that was called (recorded DST heads compared octet by octet); generator creation under the plain, blind and BLIND_-prefixed ids equals the reference (seed, seed DST, generator DST all api_id-prefixed) and is independent of earlier requests. That artefacts of one suite/interface never verify under another then follows under the random-oracle assumption; it is not decided directly, and numeric facts about the real generators (distinct, non-identity, not P1) are outside."
